@@ -363,7 +363,16 @@ def decide_variant(chk, ut, bad):
                 agree[v] += 1
         chk.note_case(("qprod", p.tobytes(), q.tobytes()), nontrivial=True)
     n = len(cases)
-    chk.cov["quat_product_agreement"] = {"cases": n, "Dropped": agree[0], "Hamilton": agree[1]}
+    gres = common.run_model([common.model_line("gen_qprod", [], list(p) + list(q)) for p, q in cases], group=GROUP)
+    gen_agree = 0
+    for (p, q), m in zip(cases, gres):
+        r = np.array(ut.quat_product(p, q), dtype=float)
+        if m[0] == "OK" and common.vec_close(list(r), m[1], rtol=1e-12)[0]:   # np.dot (BLAS) may differ from left-to-right sums in the last bit
+            gen_agree += 1
+        else:
+            bad.append((dict(function="quat_product", q1=p.tolist(), q2=q.tolist()),
+                        f"the GENERATED k_quat_product gives {m} but utils.quat_product gives {r.tolist()}"))
+    chk.cov["quat_product_agreement"] = {"cases": n, "Dropped": agree[0], "Hamilton": agree[1], "generated": gen_agree}
     if agree[1] == n:
         return 1
     if agree[0] == n:
@@ -398,6 +407,8 @@ def correspondence(chk, tier):
             if o.shape == (4, 4) and np.abs(o - np.diag(np.diag(o))).max() != 0:
                 bad.append((dict(function="symmetry_operations", system=name), "4x4 operator is not diagonal (model stores the diagonal)"))
         B.add("symops", [k], [], expect_vec(bad, dict(function="symmetry_operations", system=name), ("OK", fl), atol=1e-15, rtol=0))
+        B.add("gen_symops", [k], [], expect_vec(bad, dict(function="symmetry_operations", system=name, what="GENERATED table (RotSym stand-in) vs scipy"),
+                                                ("OK", fl), atol=1e-15, rtol=0))
         th = st._max_misorientation(s)
         edges = [(float(i), float(i + 1)) for i in range(th)]
         edges += [tuple(sorted(rng.uniform(0, th, 2))) for _ in range(10)]
@@ -406,6 +417,9 @@ def correspondence(chk, tier):
             r = impl_call(st.misorientations_random, lo, hi, s)
             B.add("random", [k], [lo, hi], expect_vec(bad, dict(function="misorientations_random", system=name, low=lo, high=hi),
                                                        ("OK", [r[1]]) if r[0] == "OK" else r, rtol=1e-11))
+            B.add("gen_random", [k], [lo, hi], expect_vec(bad, dict(function="misorientations_random", system=name, low=lo, high=hi,
+                                                                   what="GENERATED k_misorientations_random"),
+                                                           ("OK", [r[1]]) if r[0] == "OK" else r, rtol=1e-13))
             chk.note_case(("random", name, lo, hi), nontrivial=r[0] == "OK")
     # misorientation_angles on binary64 arrays
     for t in range(12 if tier == "quick" else 60):
@@ -502,6 +516,9 @@ def correspondence(chk, tier):
                 hh = impl_call(st.misorientation_hist, os, s)
             rec.take()
             if hh[0] == "OK":
+                # the GENERATED index applied to the implementation's own histogram
+                B.add("gen_index", [k], flat(hh[1][0]), expect_vec(bad, dict(meta, what="GENERATED k_misorientation_index of the implementation's histogram"),
+                                                                    ("OK", [r[1]]) if r[0] == "OK" else r, rtol=1e-12))
                 B.add("hist", [st._max_misorientation(s)], flat(angs),
                       expect_vec(bad, dict(meta, what="misorientation_hist density"), ("OK", flat(hh[1][0])), rtol=1e-12))
                 if not np.array_equal(hh[1][1], np.arange(st._max_misorientation(s) + 1.0)):
@@ -899,6 +916,7 @@ def run(chk):
     ok, br = proofs.prove(chk, FILES, PROP, groups=(GROUP,), gen_modules=(GROUP,))
     chk.cov["trusted_base"] = common.TRUSTED_COMMON + [
         "tie T (translator/specs_mindex.py -> coq/gen/Gen_mindex.v, every run): utils.quat_product, geometry.symmetry_operations (every member), misorientation_angles, LatticeSystem.value / _max_misorientation / np.histogram parameter tables, stats.misorientations_random per system with symbolic edges, misorientation_hist up to np.histogram (2 and 3 grains), diagnostics.misorientation_index, misorientation_indices; instance lemmas generated = Model_mindex for all inputs (Inst_mindex*.v).  Trusted there: the RotSym stand-in for scipy Rotation inside symmetry_operations (identity, from_rotvec of t e_axis = (e sin(t/2), cos(t/2)); the real values are compared with the table entry by entry), the exact-rational reading of int/int on the enum values, round() of closed constants as round_upto 400 0 (range / tie checked numerically by the translator), np.clip / np.min / np.sum(axis=1) / rad2deg / deg2rad semantics, NumPy division that never raises, float32 storage ignored, SeqPool (imap = map) for the process pool",
+        "the generated k_quat_product, k_symmetry_operations_*, k_misorientations_random_*, k_misorientation_index_* are extracted too and run next to the model and the implementation (binary64: product 1e-12, tables 1e-15, densities 1e-13, index 1e-12), which checks the translator's reading of the source numerically",
         "hand-written Model_mindex.v is the generic (any number of grains, any lattice) model the instance lemmas target; np.histogram(bins=n, range=(0,n), density=True) = Model_mindex.hist_density is tied by this differential run (tie H) on every texture",
         "scipy Rotation.as_quat is an oracle: unit quaternion whose rotation matrix is the input (checked on every recorded call to 1e-10); the same hypothesis is checked on the float32 quaternions that ENTER misorientation_angles (first operator = identity), whichever routine produced them (2e-6)",
         "the code stores the operator-multiplied quaternions in float32; the binary64 model is compared at 2e-6 in cos(angle/2), and the index from the full model path up to the pairs whose bin differs (counted as near_discontinuity); histogram and index from the RECORDED angles are compared at 1e-10; a non-finite index is a violation unless no recorded pair angle lies in [0, theta_max] (known finding)",
